@@ -5,13 +5,15 @@ Proved here: Python slice-assignment semantics of `sliceAssign` (all clamping ca
 leaf operations and the descent steps of the walk as ordinary `List.set` / dict assignment
 (compositional: an update at depth d is d nested `List.set`/`dictSet`s and the leaf
 operation), and the frame property (nothing else changes on that entity or any other).
-The bit-level layout of the path (MSB-first fields of width bitsRequired(size)) is carried
-by C17.get_pending for every single field; the closed-form encoder/decoder round trip for
-whole paths is exercised by the correspondence, not proved (DESIGN §5 C06, partial).
+The bit-level layout is closed by `walk_reach` (a written index path of any depth is
+decoded to exactly that path), `leaf_encoded` (every leaf operation an encoder may write)
+and `nested_update_decodes` (the whole of `read_and_apply` on a written payload).
 -/
 import ReplayModel.World
 import ReplayProofs.Lemmas.World
 import ReplayProofs.C05
+import ReplayProofs.C03
+import ReplayProofs.C17
 namespace ReplayModel.C06
 open ReplayModel
 
@@ -184,5 +186,479 @@ theorem nested_failure_clean (cfg : Config) (w : World) (id : Int) (sl : Bool) (
 /-- Non-vacuity: the slice lemmas on a concrete list (`[a,b,c,d][1:3] = [x]`). -/
 example : sliceAssign [.int 1, .int 2, .int 3, .int 4] 1 3 [.int 9] = [.int 1, .int 9, .int 4] := by
   rw [slice_in_range _ _ 1 3 (by decide) (by decide)]; rfl
+
+/-! ### bit-level layout of a nested update: encoder and closed-form decoding -/
+
+/-- the `w`-bit big-endian representation of `n` (most significant bit first) -/
+def natBits : Nat → Nat → List Bool
+  | 0, _ => []
+  | w+1, n => decide (2 ^ w ≤ n) :: natBits w (n % 2 ^ w)
+
+theorem natBits_length (w n : Nat) : (natBits w n).length = w := by
+  induction w generalizing n with
+  | zero => rfl
+  | succ w ih => simp [natBits, ih]
+
+theorem bitsValAcc_natBits (w : Nat) : ∀ (n acc : Nat), n < 2 ^ w →
+    bitsValAcc acc (natBits w n) = acc * 2 ^ w + n := by
+  induction w with
+  | zero => intro n acc h; simp at h; simp [natBits, bitsValAcc, h]
+  | succ w ih =>
+    intro n acc h
+    have hlt : n % 2 ^ w < 2 ^ w := Nat.mod_lt _ (Nat.two_pow_pos w)
+    rw [Nat.pow_succ] at h
+    show bitsValAcc (2 * acc + (if decide (2 ^ w ≤ n) = true then 1 else 0)) (natBits w (n % 2 ^ w)) = _
+    rw [ih _ _ hlt, Nat.pow_succ]
+    by_cases hc : 2 ^ w ≤ n
+    · have hm : n % 2 ^ w = n - 2 ^ w := by
+        rw [Nat.mod_eq_sub_mod hc, Nat.mod_eq_of_lt (by omega)]
+      simp only [hc, decide_true, if_true, hm]
+      have e : acc * (2 ^ w * 2) = 2 * (acc * 2 ^ w) := by
+        rw [Nat.mul_comm (2 ^ w) 2, ← Nat.mul_assoc, Nat.mul_comm acc 2, Nat.mul_assoc]
+      rw [e, Nat.add_mul, Nat.mul_assoc]
+      generalize acc * 2 ^ w = q
+      generalize 2 ^ w = p at *
+      omega
+    · have hm : n % 2 ^ w = n := Nat.mod_eq_of_lt (by omega)
+      simp only [hc, decide_false, Bool.false_eq_true, if_false, hm, Nat.add_zero]
+      rw [Nat.mul_comm (2 ^ w) 2, ← Nat.mul_assoc, Nat.mul_comm acc 2]
+
+theorem bitsVal_natBits (w n : Nat) (h : n < 2 ^ w) : bitsVal (natBits w n) = n := by
+  rw [bitsVal_eq, bitsValAcc_natBits w n 0 h]; simp
+
+/-- reading a field that was written with `natBits` returns the number and leaves the rest -/
+theorem get_natBits (r : BitReader) (w n : Nat) (tail : List Bool) (h : n < 2 ^ w)
+    (hp : r.pending = natBits w n ++ tail) :
+    ∃ r', r.get w = .ok (n, r') ∧ r'.pending = tail ∧ (∀ bs, r.Inv bs → r'.Inv bs) := by
+  have hl : w ≤ r.pending.length := by rw [hp]; simp [natBits_length]
+  obtain ⟨r', h1, h2, h3⟩ := getAcc_pending w 0 r hl
+  refine ⟨r', ?_, ?_, h3⟩
+  · unfold BitReader.get
+    rw [h1, hp]
+    have : (natBits w n ++ tail).take w = natBits w n := by
+      rw [List.take_append_of_le_length (by simp [natBits_length])]
+      rw [List.take_of_length_le (by simp [natBits_length])]
+    rw [this, ← bitsVal_eq, bitsVal_natBits w n h]
+  · rw [h2, hp]
+    rw [List.drop_append_of_le_length (by simp [natBits_length])]
+    rw [List.drop_of_length_le (by simp [natBits_length])]
+    rfl
+
+
+theorem lt_two_pow_bitsRequired (i n : Nat) (h : i < n) : i < 2 ^ bitsRequired n := by
+  by_cases h1 : n ≤ 1
+  · have : i = 0 := by omega
+    subst this; exact Nat.two_pow_pos _
+  · have := (C17.bitsRequired_spec n (by omega)).2
+    omega
+
+/-- one bit as a 1-bit field -/
+theorem get_bit (r : BitReader) (b : Bool) (tail : List Bool) (hp : r.pending = b :: tail) :
+    ∃ r', r.get 1 = .ok ((if b then 1 else 0), r') ∧ r'.pending = tail ∧ (∀ bs, r.Inv bs → r'.Inv bs) := by
+  have : natBits 1 (if b then 1 else 0) = [b] := by cases b <;> simp [natBits]
+  exact get_natBits r 1 (if b then 1 else 0) tail (by cases b <;> simp) (by rw [this, hp]; rfl)
+
+/-- what a path of indices means on a typed value: the bits that spell it, the container it
+ends at, the path items reported, and how an updated container is put back — ordinary
+`List.set` / dict assignment at every level -/
+structure Reach where
+  bits : List Bool
+  ty : Ty
+  val : Val
+  names : List String
+  rebuild : Val → Val
+
+def reach : Ty → Val → List Nat → Option Reach
+  | t, v, [] => some ⟨[], t, v, [], id⟩
+  | t, v, i :: rest =>
+    match t.peel, v with
+    | .array et _, .list xs =>
+      match xs[i]? with
+      | none => none
+      | some child =>
+        (reach et child rest).map fun r =>
+          ⟨true :: (natBits (bitsRequired xs.length) i ++ r.bits), r.ty, r.val, natStr i :: r.names,
+            fun nv => .list (xs.set i (r.rebuild nv))⟩
+    | .fixedDict fs _, .dict vs =>
+      if i < vs.length then
+        match fs[i]? with
+        | none => none
+        | some (name, ft) =>
+          match dictGet? vs name with
+          | none => none
+          | some child =>
+            (reach ft child rest).map fun r =>
+              ⟨true :: (natBits (bitsRequired vs.length) i ++ r.bits), r.ty, r.val, name :: r.names,
+                fun nv => .dict (dictSet vs name (r.rebuild nv))⟩
+      else none
+    | _, _ => none
+
+def wrap (R : Reach) (out : NestedOut) : NestedOut := ⟨R.rebuild out.val, R.names ++ out.path, out.notify⟩
+
+/-- **The walk decodes exactly the path that was written.** For every path of indices that
+exists in the value (any depth), followed by a stop bit (0, or anything when the container
+reached is empty): the walk ends at that container with the reader positioned right after
+the stop bit, performs the leaf operation there, and puts the result back by `List.set` /
+dict assignment along the path. -/
+theorem walk_reach (sl : Bool) : ∀ (path : List Nat) (t : Ty) (v : Val) (R : Reach) (r : BitReader)
+    (stop : Bool) (tail : List Bool) (fuel : Nat),
+    reach t v path = some R → (stop = true → pyTruthy R.val = false) → path.length < fuel →
+    r.pending = R.bits ++ stop :: tail →
+    ∃ r', r'.pending = tail ∧ (∀ bs, r.Inv bs → r'.Inv bs) ∧
+      nestedWalk sl fuel t v r = (nestedLeaf sl R.ty.peel R.val r').map (wrap R) := by
+  intro path
+  induction path with
+  | nil =>
+    intro t v R r stop tail fuel hR hstop hfuel hp
+    simp only [reach, Option.some.injEq] at hR
+    subst hR
+    simp only [List.nil_append] at hp
+    obtain ⟨r', h1, h2, h3⟩ := get_bit r stop tail hp
+    refine ⟨r', h2, h3, ?_⟩
+    obtain ⟨f, rfl⟩ : ∃ f, fuel = f + 1 := ⟨fuel - 1, by simp at hfuel; omega⟩
+    have hcond : ((if stop then 1 else 0) = 1 && pyTruthy v) = false := by
+      cases stop with
+      | false => simp
+      | true => simp [hstop rfl]
+    have hw : nestedWalk sl (f + 1) t v r = nestedLeaf sl t.peel v r' := by
+      simp only [nestedWalk, h1]
+      simp only [hcond, Bool.false_eq_true, if_false]
+    rw [hw]
+    cases nestedLeaf sl t.peel v r' with
+    | error e => rfl
+    | ok out => simp [Except.map, wrap]
+  | cons i rest ih =>
+    intro t v R r stop tail fuel hR hstop hfuel hp
+    obtain ⟨f, rfl⟩ : ∃ f, fuel = f + 1 := ⟨fuel - 1, by simp at hfuel; omega⟩
+    have hf : rest.length < f := by simp at hfuel; omega
+    unfold reach at hR
+    split at hR
+    · -- list
+      rename_i et sz xs hpeel
+      cases hc : xs[i]? with
+      | none => simp [hc] at hR
+      | some child =>
+        simp only [hc, Option.map_eq_some_iff] at hR
+        obtain ⟨R', hR', rfl⟩ := hR
+        have hi : i < xs.length := by
+          rcases Nat.lt_or_ge i xs.length with h | h
+          · exact h
+          · rw [List.getElem?_eq_none h] at hc; cases hc
+        simp only [List.cons_append, List.append_assoc] at hp
+        obtain ⟨r1, g1, g2, g3⟩ := get_bit r true _ hp
+        obtain ⟨r2, k1, k2, k3⟩ := get_natBits r1 (bitsRequired xs.length) i _ (lt_two_pow_bitsRequired i _ hi) g2
+        obtain ⟨r', m1, m2, m3⟩ := ih et child R' r2 stop tail f hR' hstop hf k2
+        refine ⟨r', m1, fun bs h => m2 bs (k3 bs (g3 bs h)), ?_⟩
+        have hne : xs.isEmpty = false := by cases xs <;> simp_all
+        simp only [nestedWalk, g1, if_true, pyTruthy, hne, hpeel, k1, hc, m3]
+        cases nestedLeaf sl R'.ty.peel R'.val r' with
+        | error e => rfl
+        | ok out => simp [Except.map, wrap, bind, Except.bind, pure, Except.pure]
+    · -- dict
+      rename_i fs an vs hpeel
+      split at hR
+      · rename_i hi
+        cases hfi : fs[i]? with
+        | none => simp [hfi] at hR
+        | some nf =>
+          obtain ⟨name, ft⟩ := nf
+          cases hc : dictGet? vs name with
+          | none => simp [hfi, hc] at hR
+          | some child =>
+            simp only [hfi, hc, Option.map_eq_some_iff] at hR
+            obtain ⟨R', hR', rfl⟩ := hR
+            simp only [List.cons_append, List.append_assoc] at hp
+            obtain ⟨r1, g1, g2, g3⟩ := get_bit r true _ hp
+            obtain ⟨r2, k1, k2, k3⟩ := get_natBits r1 (bitsRequired vs.length) i _ (lt_two_pow_bitsRequired i _ hi) g2
+            obtain ⟨r', m1, m2, m3⟩ := ih ft child R' r2 stop tail f hR' hstop hf k2
+            refine ⟨r', m1, fun bs h => m2 bs (k3 bs (g3 bs h)), ?_⟩
+            have hne : vs.isEmpty = false := by cases vs <;> simp_all
+            simp only [nestedWalk, g1, if_true, pyTruthy, hne, hpeel, k1, hfi, hc, m3]
+            cases nestedLeaf sl R'.ty.peel R'.val r' with
+            | error e => rfl
+            | ok out => simp [Except.map, wrap, bind, Except.bind, pure, Except.pure]
+      · cases hR
+    · cases hR
+
+
+/-! ### the element data starts at the next byte boundary -/
+
+theorem getRest_of_pending (r : BitReader) (bs pre data : Bytes) (pad : List Bool)
+    (hinv : r.Inv bs) (hbs : bs = pre ++ data) (hp : r.pending = pad ++ C17.bitsOf data) (hpad : pad.length < 8) :
+    r.getRest = data := by
+  obtain ⟨⟨j, hj, hs⟩, hc⟩ := hinv
+  have hl := pending_length r
+  rw [hp, List.length_append, C17.bitsOf_length] at hl
+  have hsl : r.stream.length = data.length := by omega
+  unfold BitReader.getRest
+  rw [hs] at hsl ⊢
+  rw [List.length_drop, hbs, List.length_append] at hsl
+  have hj' : j = pre.length := by rw [hbs, List.length_append] at hj; omega
+  rw [hj', hbs, List.drop_left]
+
+/-- the read-until-exhausted loop returns exactly the elements that were written -/
+theorem decodeAll_encode (et : Ty) : ∀ (vs : List Val) (fuel : Nat),
+    (∀ v ∈ vs, hasTy et v = true ∧ userOK 1 et v = true ∧ encodeWire 1 et v ≠ []) →
+    (vs.flatMap (encodeWire 1 et)).length < fuel →
+    decodeAll et fuel (vs.flatMap (encodeWire 1 et)) = .ok vs := by
+  intro vs
+  induction vs with
+  | nil =>
+    intro fuel _ hf
+    obtain ⟨f, rfl⟩ : ∃ f, fuel = f + 1 := ⟨fuel - 1, by omega⟩
+    simp [decodeAll]
+  | cons v vs ih =>
+    intro fuel hall hf
+    obtain ⟨f, rfl⟩ : ∃ f, fuel = f + 1 := ⟨fuel - 1, by omega⟩
+    obtain ⟨hv, hu, hne⟩ := hall v (List.mem_cons_self ..)
+    have hpos : 0 < (encodeWire 1 et v).length := List.length_pos_iff.mpr hne
+    simp only [List.flatMap_cons] at hf ⊢
+    have hnonempty : (encodeWire 1 et v ++ vs.flatMap (encodeWire 1 et)).isEmpty = false := by
+      cases h : encodeWire 1 et v with
+      | nil => exact absurd h hne
+      | cons a b => rfl
+    unfold decodeAll
+    simp only [hnonempty, Bool.false_eq_true, if_false, C03.decode_encode 1 et v _ hv hu]
+    have hprog : ¬ (vs.flatMap (encodeWire 1 et)).length = (encodeWire 1 et v ++ vs.flatMap (encodeWire 1 et)).length := by
+      rw [List.length_append]; omega
+    simp only [hprog, if_false]
+    rw [ih f (fun x hx => hall x (List.mem_cons_of_mem _ hx)) (by rw [List.length_append] at hf; omega)]
+    rfl
+
+/-! ### the leaf operations as written by an encoder -/
+
+inductive LeafOp where
+  | dictSet (i : Nat) (nv : Val)
+  | listSet (i : Nat) (nv : Val)
+  | listClear (i : Nat)
+  | slice (i j : Nat) (new : List Val)
+
+def LeafOp.isSlice : LeafOp → Bool
+  | .slice .. => true
+  | _ => false
+
+/-- index fields of the leaf operation on container `v` -/
+def leafBits (v : Val) : LeafOp → List Bool
+  | .dictSet i _ => (match v with | .dict vs => natBits (bitsRequired vs.length) i | _ => [])
+  | .listSet i _ => (match v with | .list xs => natBits (bitsRequired xs.length) i | _ => [])
+  | .listClear i => (match v with | .list xs => natBits (bitsRequired xs.length) i | _ => [])
+  | .slice i j _ => (match v with
+      | .list xs => natBits (bitsRequired (xs.length + 1)) i ++ natBits (bitsRequired (xs.length + 1)) j
+      | _ => [])
+
+/-- element data following the (byte-aligned) bit fields -/
+def leafData (t : Ty) : LeafOp → Bytes
+  | .dictSet i nv => (match t with | .fixedDict fs _ => (match fs[i]? with | some (_, ft) => encodeWire 1 ft nv | none => []) | _ => [])
+  | .listSet _ nv => (match t with | .array et _ => encodeWire 1 et nv | _ => [])
+  | .listClear _ => []
+  | .slice _ _ new => (match t with | .array et _ => new.flatMap (encodeWire 1 et) | _ => [])
+
+/-- the meaning of a leaf operation: ordinary dict / list operations (Python slice assignment) -/
+def leafResult (t : Ty) (v : Val) : LeafOp → Option NestedOut
+  | .dictSet i nv => (match t, v with
+      | .fixedDict fs _, .dict vs => (fs[i]?).map fun nf => ⟨.dict (dictSet vs nf.1 nv), [nf.1], some (.dict (dictSet vs nf.1 nv))⟩
+      | _, _ => none)
+  | .listSet i nv => (match v with
+      | .list xs => some ⟨.list (xs.set i nv), [natStr i], some (.list (xs.set i nv))⟩
+      | _ => none)
+  | .listClear i => (match v with
+      | .list xs => some ⟨.list (xs.set i .none), [natStr i], none⟩
+      | _ => none)
+  | .slice i j new => (match v with
+      | .list xs =>
+        some ⟨.list (sliceAssign xs i j new), [natStr i ++ ":" ++ natStr j], if new.isEmpty then none else some (.list (sliceAssign xs i j new))⟩
+      | _ => none)
+
+/-- what an encoder must respect: indices representable and in range, values of the element
+type, element encodings non-empty (no zero-width elements) -/
+def leafOK (t : Ty) (v : Val) : LeafOp → Prop
+  | .dictSet i nv => ∃ fs an vs name ft, t = .fixedDict fs an ∧ v = .dict vs ∧ i < vs.length ∧ fs[i]? = some (name, ft) ∧
+      hasTy ft nv = true ∧ userOK 1 ft nv = true
+  | .listSet i nv => ∃ et sz xs, t = .array et sz ∧ v = .list xs ∧ i < xs.length ∧
+      hasTy et nv = true ∧ userOK 1 et nv = true ∧ encodeWire 1 et nv ≠ []
+  | .listClear i => ∃ et sz xs, t = .array et sz ∧ v = .list xs ∧ i < xs.length
+  | .slice i j new => ∃ et sz xs, t = .array et sz ∧ v = .list xs ∧ i ≤ xs.length ∧ j ≤ xs.length ∧
+      (∀ x ∈ new, hasTy et x = true ∧ userOK 1 et x = true ∧ encodeWire 1 et x ≠ [])
+
+theorem flatMap_enc_empty (et : Ty) (new : List Val) (h : ∀ x ∈ new, encodeWire 1 et x ≠ []) :
+    (new.flatMap (encodeWire 1 et)).isEmpty = new.isEmpty := by
+  cases new with
+  | nil => rfl
+  | cons x xs =>
+    simp only [List.flatMap_cons, List.isEmpty_cons]
+    cases hx : encodeWire 1 et x with
+    | nil => exact absurd hx (h x (List.mem_cons_self ..))
+    | cons a b => rfl
+
+/-- **Leaf operations decode to what was written**, for every container, every operation the
+encoder may legally write, and any reader positioned at the index fields with the element
+data starting at the next byte boundary. -/
+theorem leaf_encoded (t : Ty) (v : Val) (op : LeafOp) (r : BitReader) (bs pre : Bytes) (pad : List Bool)
+    (hok : leafOK t v op) (hinv : r.Inv bs) (hbs : bs = pre ++ leafData t op)
+    (hp : r.pending = leafBits v op ++ (pad ++ C17.bitsOf (leafData t op))) (hpad : pad.length < 8) :
+    ∃ out, leafResult t v op = some out ∧ nestedLeaf op.isSlice t v r = .ok out := by
+  cases op with
+  | dictSet i nv =>
+    obtain ⟨fs, an, vs, name, ft, rfl, rfl, hi, hf, hv, hu⟩ := hok
+    simp only [leafBits, leafData, hf] at hp hbs
+    obtain ⟨r', g1, g2, g3⟩ := get_natBits r _ i _ (lt_two_pow_bitsRequired i _ hi) hp
+    have hrest := getRest_of_pending r' bs pre _ pad (g3 bs hinv) hbs g2 hpad
+    have hd : decode 1 ft r'.getRest = .ok (nv, []) := by
+      rw [hrest]
+      have := C03.decode_encode 1 ft nv [] hv hu
+      simpa using this
+    exact ⟨_, by simp [leafResult, hf], leaf_dict_set fs an vs r r' i name ft nv [] g1 hf hd⟩
+  | listSet i nv =>
+    obtain ⟨et, sz, xs, rfl, rfl, hi, hv, hu, hne⟩ := hok
+    simp only [leafBits, leafData] at hp hbs
+    obtain ⟨r', g1, g2, g3⟩ := get_natBits r _ i _ (lt_two_pow_bitsRequired i _ hi) hp
+    have hrest := getRest_of_pending r' bs pre _ pad (g3 bs hinv) hbs g2 hpad
+    have hne' : r'.getRest.isEmpty = false := by
+      rw [hrest]; cases h : encodeWire 1 et nv with
+      | nil => exact absurd h hne
+      | cons a b => rfl
+    have hd : decodeAll et (r'.getRest.length + 1) r'.getRest = .ok [nv] := by
+      rw [hrest]
+      have := decodeAll_encode et [nv] ((encodeWire 1 et nv).length + 1)
+        (by intro x hx; simp only [List.mem_singleton] at hx; subst hx; exact ⟨hv, hu, hne⟩) (by simp)
+      simpa using this
+    exact ⟨_, rfl, leaf_list_set et sz xs r r' i nv [] g1 hne' hd hi⟩
+  | listClear i =>
+    obtain ⟨et, sz, xs, rfl, rfl, hi⟩ := hok
+    simp only [leafBits, leafData] at hp hbs
+    obtain ⟨r', g1, g2, g3⟩ := get_natBits r _ i _ (lt_two_pow_bitsRequired i _ hi) hp
+    have hrest := getRest_of_pending r' bs pre _ pad (g3 bs hinv) hbs g2 hpad
+    exact ⟨_, rfl, leaf_list_clear et sz xs r r' i g1 (by rw [hrest]; rfl) hi⟩
+  | slice i j new =>
+    obtain ⟨et, sz, xs, rfl, rfl, hi, hj, hall⟩ := hok
+    simp only [leafBits, leafData, List.append_assoc] at hp hbs
+    obtain ⟨r1, g1, g2, g3⟩ := get_natBits r _ i _ (lt_two_pow_bitsRequired i _ (by omega)) hp
+    obtain ⟨r2, k1, k2, k3⟩ := get_natBits r1 _ j _ (lt_two_pow_bitsRequired j _ (by omega)) g2
+    have hrest := getRest_of_pending r2 bs pre _ pad (k3 bs (g3 bs hinv)) hbs k2 hpad
+    have hemp := flatMap_enc_empty et new (fun x hx => (hall x hx).2.2)
+    by_cases hnew : new.isEmpty = true
+    · have hnil : new = [] := by cases new <;> simp_all
+      subst hnil
+      refine ⟨_, rfl, ?_⟩
+      have := leaf_slice_delete et sz xs r r1 r2 i j g1 k1 (by rw [hrest]; rfl)
+      simpa [LeafOp.isSlice] using this
+    · have hnew' : new.isEmpty = false := by simpa using hnew
+      have hne' : r2.getRest.isEmpty = false := by rw [hrest, hemp]; exact hnew'
+      have hd : decodeAll et (r2.getRest.length + 1) r2.getRest = .ok new := by
+        rw [hrest]
+        exact decodeAll_encode et new _ hall (by omega)
+      refine ⟨_, rfl, ?_⟩
+      have := leaf_slice_assign et sz xs new r r1 r2 i j g1 k1 hne' hd
+      simpa [LeafOp.isSlice, hnew'] using this
+
+
+theorem reach_bits_length : ∀ (path : List Nat) (t : Ty) (v : Val) (R : Reach),
+    reach t v path = some R → path.length ≤ R.bits.length := by
+  intro path
+  induction path with
+  | nil => intro t v R h; simp
+  | cons i rest ih =>
+    intro t v R h
+    unfold reach at h
+    split at h
+    · rename_i et sz xs hpeel
+      cases hc : xs[i]? with
+      | none => simp [hc] at h
+      | some child =>
+        simp only [hc, Option.map_eq_some_iff] at h
+        obtain ⟨R', hR', rfl⟩ := h
+        have := ih _ _ _ hR'
+        simp only [List.length_cons, List.length_append]; omega
+    · rename_i fs an vs hpeel
+      split at h
+      · cases hfi : fs[i]? with
+        | none => simp [hfi] at h
+        | some nf =>
+          obtain ⟨name, ft⟩ := nf
+          cases hc : dictGet? vs name with
+          | none => simp [hfi, hc] at h
+          | some child =>
+            simp only [hfi, hc, Option.map_eq_some_iff] at h
+            obtain ⟨R', hR', rfl⟩ := h
+            have := ih _ _ _ hR'
+            simp only [List.length_cons, List.length_append]; omega
+      · cases h
+    · cases h
+
+theorem ofBytes_inv (bs : Bytes) : (BitReader.ofBytes bs).Inv bs :=
+  ⟨⟨0, Nat.zero_le _, rfl⟩, by simp [BitReader.ofBytes]⟩
+
+/-- **A nested update decodes to exactly the operation that was written** — the closed form
+of `NestedProperty.read_and_apply`. For every entity, every client property holding a
+container, every index path that exists in it (any depth), every leaf operation an encoder
+may legally write, and every payload whose leading bytes spell, MSB first,
+`1, property index, (1, child index)*, 0, leaf index fields` padded to a byte boundary and
+followed by the wire encoding of the new elements: the update succeeds and the entity's
+property becomes the old value with the leaf operation applied at the end of the path
+(`List.set` / dict assignment along the path, Python slice assignment at the leaf); nothing
+else in the entity changes (`nested_entity_frame`). -/
+theorem nested_update_decodes (reg : Registry) (e : Entity) (header : Bytes) (pi : Nat) (p : PropDef) (v : Val)
+    (path : List Nat) (R : Reach) (op : LeafOp) (pad : List Bool)
+    (hp : e.view.clientProps[pi]? = some p) (hv : dictGet? e.client p.name = some v)
+    (hR : reach p.ty v path = some R) (hok : leafOK R.ty.peel R.val op)
+    (hbits : C17.bitsOf header = true :: (natBits (bitsRequired e.view.clientProps.length) pi ++
+      (R.bits ++ false :: (leafBits R.val op ++ pad))))
+    (hpad : pad.length < 8) :
+    ∃ out l raised, leafResult R.ty.peel R.val op = some out ∧
+      applyNested reg e op.isSlice (header ++ leafData R.ty.peel op) =
+        .ok ({ e with client := dictSet e.client p.name (R.rebuild out.val) }, l, raised) := by
+  let payload := header ++ leafData R.ty.peel op
+  have hpi : pi < e.view.clientProps.length := by
+    rcases Nat.lt_or_ge pi e.view.clientProps.length with h | h
+    · exact h
+    · rw [List.getElem?_eq_none h] at hp; cases hp
+  have hpend : (BitReader.ofBytes payload).pending = C17.bitsOf header ++ C17.bitsOf (leafData R.ty.peel op) := by
+    simp [BitReader.ofBytes, BitReader.pending, C17.bitsOf, payload]
+  rw [hbits] at hpend
+  simp only [List.cons_append, List.append_assoc] at hpend
+  obtain ⟨r1, g1, g2, g3⟩ := get_bit (BitReader.ofBytes payload) true _ hpend
+  obtain ⟨r2, k1, k2, k3⟩ := get_natBits r1 _ pi _ (lt_two_pow_bitsRequired pi _ hpi) g2
+  have hfuel : path.length < 8 * payload.length + 2 := by
+    have h1 := reach_bits_length path p.ty v R hR
+    have h2 := congrArg List.length hbits
+    rw [C17.bitsOf_length] at h2
+    simp only [List.length_cons, List.length_append] at h2
+    have : header.length ≤ payload.length := by simp [payload]
+    omega
+  obtain ⟨r3, m1, m2, m3⟩ := walk_reach op.isSlice path p.ty v R r2 false _ (8 * payload.length + 2) hR
+    (by intro h; cases h) hfuel k2
+  have hinv3 : r3.Inv payload := m2 _ (k3 _ (g3 _ (ofBytes_inv payload)))
+  obtain ⟨out, ho1, ho2⟩ := leaf_encoded R.ty.peel R.val op r3 payload header pad hok hinv3 rfl
+    (by rw [m1]) hpad
+  refine ⟨out, ?_⟩
+  have hwalk : nestedWalk op.isSlice (8 * payload.length + 2) p.ty v r2 = .ok (wrap R out) := by
+    rw [m3, ho2]; rfl
+  have hg1 : (BitReader.ofBytes payload).get 1 = .ok (1, r1) := by simpa using g1
+  unfold applyNested
+  simp only [payload] at hg1 k1 hwalk
+  simp only [hg1, k1, hp, hv, hwalk]
+  simp only [show ((1 : Nat) = 0) = False by simp, if_false, wrap]
+  cases out.notify with
+  | none => exact ⟨[], false, ho1, rfl⟩
+  | some obj => exact ⟨_, _, ho1, rfl⟩
+
+
+/-! Non-vacuity of `nested_update_decodes`: a concrete entity, path `crew[0].ys`, slice `1:2 := [8, 9]`.
+Header bits `1 | prop 1 | 1 elem 0 | 1 field 1 | 0 | i=01 | j=10 | pad` = `EC C0`, data `08 09`. -/
+def exView : EntityView :=
+  { name := "E", methods := [],
+    clientProps := [⟨"a", .int 1 false, 0⟩,
+      ⟨"crew", .array (.fixedDict [("x", .int 1 false), ("ys", .array (.int 1 false) none)] false) none, 0⟩],
+    clientPropsInternal := [], cellProps := [], baseProps := [], volatile := [] }
+def exEnt : Entity :=
+  { id := 7, view := exView,
+    client := [("crew", .list [.dict [("x", .int 1), ("ys", .list [.int 5, .int 6, .int 7])], .dict [("x", .int 2), ("ys", .list [])]])] }
+
+example : (applyNested {} exEnt true [0xEC, 0xC0, 8, 9]).toOption.map (·.1.client) =
+    some [("crew", .list [.dict [("x", .int 1), ("ys", .list [.int 5, .int 8, .int 9, .int 7])], .dict [("x", .int 2), ("ys", .list [])]])] := by
+  rfl
+
+example : C17.bitsOf [0xEC, 0xC0] = true :: (natBits 1 1 ++ ([true, false, true, true] ++ false :: ((natBits 2 1 ++ natBits 2 2) ++ [false, false, false, false, false]))) := by
+  decide
 
 end ReplayModel.C06
